@@ -175,10 +175,65 @@ def corpus_bad_source(ctx, e):
     return probs
 
 
+def corpus_cli_then_daemon(ctx):
+    """histories that start at the operator's keyboard: `file modify` re-registers a size and / or a digest (every combination,
+    right or wrong values, with and without --no-reverify), then the real daemon runs three passes.  Absent --no-reverify (the
+    operator's explicit waiver) the quiescent index agrees with storage: a copy recorded healthy has the registered size and
+    digest."""
+    import itertools
+    import world as worldmod
+    probs = []
+    data = b"ten bytes!"
+    with envmod.CliEnv() as e:
+        for size_opt, md5_opt, noreverify in itertools.product([None, "right", "wrong"], [None, "right", "wrong"], [False, True]):
+            if size_opt is None and md5_opt is None:
+                continue
+            w = worldmod.World(e)
+            db = w.db
+            for m in (db.StorageTransferAction, db.ArchiveFileCopyRequest, db.ArchiveFileImportRequest, db.ArchiveFileCopy,
+                      db.ArchiveFile, db.ArchiveAcq, db.StorageNode, db.StorageGroup):
+                m.delete().execute()
+            import shutil
+            shutil.rmtree(os.path.join(e.tmp, "roots"), ignore_errors=True)
+            n1 = w.node("n1", w.group("g1"))
+            f = w.file(w.acq("acq"), "f.dat", data)
+            w.copy(f, n1, has="Y")
+            argv = ["file", "modify", "acq/f.dat"]
+            if size_opt:
+                argv += ["--size", str(len(data) if size_opt == "right" else 7)]
+            if md5_opt:
+                argv += ["--md5", worldmod.md5(data) if md5_opt == "right" else "0" * 32]
+            if noreverify:
+                argv += ["--no-reverify"]
+            rc, out, exc = e.cli(argv)
+            d = worldmod.Daemon(e, "h1")
+            try:
+                for _ in range(3):
+                    d.iterate()
+                    d.drain()
+            except Exception as ex:  # noqa
+                probs.append(f"after `alpenhorn {' '.join(argv)}` the daemon raised {type(ex).__name__}: {ex}")
+                continue
+            frow = db.ArchiveFile.get(id=f.id)
+            c = db.ArchiveFileCopy.get(file=f.id, node=n1.id)
+            on_disk = w.file_on(n1, frow)
+            agrees = on_disk is not None and (frow.size_b is None or frow.size_b == len(on_disk)) and \
+                (frow.md5sum is None or frow.md5sum == worldmod.md5(on_disk))
+            ctx.case(("corpus", "cli-then-daemon", size_opt, md5_opt, noreverify), nontrivial=True)
+            ctx.count(f"corpus:cli-then-daemon:{c.has_file}:{'agrees' if agrees else 'differs'}{':waived' if noreverify else ''}")
+            if rc == 0 and not noreverify and c.has_file == "Y" and not agrees:
+                probs.append(f"after `alpenhorn {' '.join(argv)}` and three daemon passes the copy on n1 is recorded healthy although the "
+                             f"file there has {len(on_disk)} bytes / digest {worldmod.md5(on_disk)} and the index registers "
+                             f"{frow.size_b} bytes / {frow.md5sum}")
+    return probs
+
+
 def run(ctx):
     ok = common.proof_stage(ctx, MODULE)
     rng = ctx.rng
     nh = 90 if ctx.quick() else 2000
+    for p in corpus_cli_then_daemon(ctx):
+        ctx.violation("index:corpus:cli-then-daemon", p, {"kind": "corpus2", "name": "file modify, then the daemon"})
     with envmod.Env(dbfile=True) as e:     # file database: persistent daemon loops and two-worker passes need threads
         for p in corpus_index_clauses(ctx, e):
             ctx.violation("index:corpus:" + p[:40].replace(" ", "_"), p, {"kind": "corpus2", "name": "index clauses"})
